@@ -376,7 +376,8 @@ def split_files(model, rng, nfiles):
         files[fi].append(it)
         if it.get("ext"):
             last_file[key] = fi
-    return [{"path": ["p", "schema", "s%d.graphql" % i], "items": f} for i, f in enumerate(files) if f or i == 0]
+    # an empty file is not a GraphQL document (Document: Definition+): only non-empty files are written
+    return [{"path": ["p", "schema", "s%d.graphql" % i], "items": f} for i, f in enumerate(files) if f]
 
 
 # ---------------------------------------------------------------------------------------------
